@@ -135,6 +135,10 @@ class ParseState(metaclass=ParseStateMeta):
 
         if len(self.values) != 1:
             raise ValueError('Could not parse rule')
+        if self.tokens[0] in ('(', ')', 'and', 'or', 'not', 'string'):
+            # A lone operator, parenthesis or quoted string reduces to a
+            # single value too, but it is not a rule.
+            raise ValueError('Could not parse rule')
         return self.values[0]
 
     @reducer('(', 'check', ')')
